@@ -4,7 +4,7 @@
    memory-control TLV.  Everything else - UID, static and dynamic lock bytes, OTP/CC, the TLVs in front of the
    NDEF TLV, reserved ranges, the memory behind the data area - is outside. *)
 From Coq Require Import ZArith List Bool.
-From NV Require Import Base.Result Base.Bytes Base.PyPrims Model.TlvMem Model.T2T Model.T1T Gen.TlvFmtK Proofs.TlvLib Proofs.T2TFrame Proofs.T1T Bridge.TlvFmtK.
+From NV Require Import Base.Result Base.Bytes Base.PyPrims Model.TlvMem Model.T2T Model.T1T Gen.TlvFmtK Model.T2Sector Proofs.TlvLib Proofs.T2TFrame Proofs.T2Sector Proofs.T1T Bridge.TlvFmtK.
 Import ListNotations.
 Open Scope Z_scope.
 
@@ -115,3 +115,21 @@ Example C03_t2_end_nonvacuous :
   wf_layout ex_t2_end /\ t2_capacity ex_t2_end = Some 0 /\ fst (t2_format ex_t2_end (Some 255)) = Ok true /\
   snd (t2_format ex_t2_end (Some 255)) = [] /\ get (apply_ws ex_t2_end (snd (t2_format ex_t2_end None))) 64 = 17.
 Proof. repeat split; vm_compute; reflexivity. Qed.
+
+(* ---------------------------------------------------------------- Type 2 tags with more than one 1K sector.
+   The memory models address the tag by absolute byte address.  That is what the code does as long as the library's
+   _current_sector equals the sector the tag is in whenever a READ / WRITE is sent: sector_select keeps them equal whatever
+   happens to a SECTOR SELECT sequence (packet 1 NAK / lost for all tries, packet 2 answered or garbled: the tag stays, the
+   library keeps its value; passively acknowledged: both change), over any sequence of memory accesses; and after a
+   successful select for address a, page (a >> 2) mod 256 of the tag's sector is the page that holds a. *)
+Theorem C03_t2_sector_sync : forall ops lib tag, lib = tag -> fst (ss_run lib tag ops) = snd (ss_run lib tag ops).
+Proof. exact ss_run_sync. Qed.
+Print Assumptions C03_t2_sector_sync.
+Theorem C03_t2_sector_step : forall lib tag target o r lib' tag', lib = tag ->
+  sector_select lib tag target o = (r, lib', tag') -> lib' = tag' /\ (forall s, r = Ok s -> s = target /\ tag' = target).
+Proof. exact sector_select_sync. Qed.
+Print Assumptions C03_t2_sector_step.
+Theorem C03_t2_access_addr : forall lib tag a o s lib' tag', lib = tag -> 0 <= a ->
+  sector_select lib tag (Z.shiftr a 10) o = (Ok s, lib', tag') -> abs_addr tag' (Z.shiftr a 2 mod 256) = 4 * (a / 4).
+Proof. exact access_addr. Qed.
+Print Assumptions C03_t2_access_addr.
